@@ -381,6 +381,10 @@ type c13Rec struct {
 	ws     []c13Write
 	n      int
 	failAt int // -1: none; else the failAt-th mutating call fails (and is not applied)
+	// failFrom > 0 or from0: that call and every later one fail (the process lost its stores: a crash)
+	failFrom int
+	from0    bool
+	off      bool // healed: nothing fails, nothing is recorded
 }
 
 // next returns true when the write may proceed
@@ -390,9 +394,15 @@ func (r *c13Rec) next(w c13Write) bool {
 	}
 	r.mu.Lock()
 	defer r.mu.Unlock()
+	if r.off {
+		return true
+	}
 	i := r.n
 	r.n++
 	if r.failAt >= 0 && i == r.failAt {
+		return false
+	}
+	if (r.from0 || r.failFrom > 0) && i >= r.failFrom {
 		return false
 	}
 	r.ws = append(r.ws, w)
@@ -900,6 +910,8 @@ func (e *c13Env) runOp(st *c13Stores, op *xt.T) (err error) {
 		return e.merge(st, int(op.Kids[1].N), [][]byte{e.u.sumOfCid(op.Kids[2])}, 0, false)
 	case 6:
 		return e.fetch(st, op.Kids[1], op.Kids[2])
+	case 8:
+		return e.realFetch(st, op.Kids[2])
 	default:
 		return prune.Prune(st.db, st.rs, nil)
 	}
@@ -1044,10 +1056,14 @@ type c13Judgement struct {
 }
 
 func (e *c13Env) judge(st *c13Stores, doctorToo bool) c13Judgement {
+	return c13JudgeDB(st.db, st.rs, doctorToo)
+}
+
+// c13JudgeDB: the four invariants of C13 read off a repository with its own readers
+func c13JudgeDB(db objects.Store, rs ref.Store, doctorToo bool) c13Judgement {
 	bad := func(class, f string, a ...interface{}) c13Judgement {
 		return c13Judgement{false, class, fmt.Sprintf(f, a...)}
 	}
-	db, rs := st.db, st.rs
 	refs, err := ref.ListAllRefs(rs)
 	if err != nil {
 		return bad("harness-setup", "ListAllRefs: %v", err)
@@ -1282,6 +1298,7 @@ func runC13(ctx *Ctx, c *xt.T) (*xt.T, Verdict) {
 	ctx.Info["crash_prefixes_replayed"] += L + 1
 	ctx.Info["write_faults_injected"] += L
 	ctx.Info["store_writes_recorded"] += L
+	realOp := kind == 7 || kind == 8                  // the real exported operation runs on the injected stores
 	idempotent := kind != 0 && kind != 1 && kind != 4 // re-running the completed op changes no ref (commit / no-ff merge stack a second commit)
 	verdicts := xt.N()
 	for n := 0; n <= L; n++ {
@@ -1316,7 +1333,7 @@ func runC13(ctx *Ctx, c *xt.T) (*xt.T, Verdict) {
 			if errF == nil && err1 == nil {
 				fault = false
 				fail("fault-not-reported", "%s: write %d of %d failed but the operation returned nil", c13OpName(kind), n, L)
-			} else if workers == 1 {
+			} else if workers == 1 && kind != 8 {
 				if sf.dump() != dumpN {
 					fault = false
 					fail("fault-state-differs", "%s: after a failed write %d of %d the state is not the state of the first %d writes", c13OpName(kind), n, L, n)
@@ -1324,6 +1341,38 @@ func runC13(ctx *Ctx, c *xt.T) (*xt.T, Verdict) {
 			} else if jf := env.judge(sf, doctorToo); !jf.inv {
 				fault = false
 				fail(jf.class, "%s after an injected error at write %d: %s", c13OpName(kind), n, jf.msg)
+			}
+			if realOp {
+				// heal the stores and run the real operation again: it must reach the uninterrupted end
+				frec.mu.Lock()
+				frec.off = true
+				frec.mu.Unlock()
+				errR := env.runOp(sf, op2)
+				jr := env.judge(sf, doctorToo)
+				if or := env.obs(sf); (errR == nil) != (err1 == nil) || !jr.inv || or.String() != obs1.String() {
+					fault = false
+					fail("rerun-after-fault-differs", "%s re-run after a failed write %d of %d: returned %v, refs %s; uninterrupted run: %v, %s",
+						c13OpName(kind), n, L, errR, or, err1, obs1)
+				}
+				// the same position as a crash: this and every later write fail, then healthy stores
+				crec := &c13Rec{failAt: -1, failFrom: n, from0: n == 0}
+				sc := fresh(nil, crec)
+				env.runOp(sc, op)
+				if sc.dump() != dumpN {
+					fault = false
+					fail("crash-state-differs", "%s with every write from %d on failing: the state is not the state of the first %d writes", c13OpName(kind), n, n)
+				}
+				crec.mu.Lock()
+				crec.off = true
+				crec.mu.Unlock()
+				errC := env.runOp(sc, op2)
+				jc := env.judge(sc, doctorToo)
+				if oc := env.obs(sc); (errC == nil) != (err1 == nil) || !jc.inv || oc.String() != obs1.String() {
+					fault = false
+					fail("rerun-differs", "%s re-run after a crash behind write %d of %d (%s): returned %v, refs %s; uninterrupted run: %v, %s",
+						c13OpName(kind), n, L, c13TraceAt(trace, n), errC, oc, err1, obs1)
+				}
+				sc.close()
 			}
 			sf.close()
 		}
@@ -1334,11 +1383,16 @@ func runC13(ctx *Ctx, c *xt.T) (*xt.T, Verdict) {
 			fail("cli-differs", "%s", msg)
 		}
 	}
+	if len(c.Kids) > 4 && len(c.Kids[4].Kids) > 2 {
+		if class, msg := c13ShallowCLI(ctx, env, c.Kids[4].Kids[2]); class != "" {
+			fail(class, "%s", msg)
+		}
+	}
 	return xt.N(xt.LI(status), c13Canon(trace), verdicts, obs1, counts1), v
 }
 
 func c13OpName(k uint64) string {
-	return []string{"commit", "commitWithTable", "DeleteHead", "merge", "merge(no-ff)", "merge(ff)", "fetch", "prune"}[k]
+	return []string{"commit", "commitWithTable", "DeleteHead", "merge", "merge(no-ff)", "merge(ff)", "fetch", "prune", "fetch.Fetch"}[k]
 }
 
 func c13TraceAt(trace []*xt.T, n int) string {
